@@ -23,7 +23,10 @@ def kernelClose (g : MVarId) (tgt prf : Expr) : MetaM Unit := do
   if ty.hasExprMVar || val.hasExprMVar then throwError "kernel tactic: context contains metavariables"
   let lvls := (collectLevelParams {} ty).params.toList
   let name ← mkAuxDeclName `_kernel_chk
-  addDecl (.thmDecl { name, levelParams := lvls, type := ty, value := val })
+  -- checked synchronously, so that a rejected declaration is an exception of THIS tactic (and
+  -- `first | … | …` can fall through to the next alternative)
+  withOptions (fun o => Elab.async.set o false) <|
+    addDecl (.thmDecl { name, levelParams := lvls, type := ty, value := val })
   g.assign (mkAppN (mkConst name (lvls.map mkLevelParam)) fvars)
 
 def reflTrue : Expr := mkApp2 (mkConst ``Eq.refl [Level.one]) (mkConst ``Bool) (mkConst ``Bool.true)
@@ -45,3 +48,5 @@ example (b : Bool) (n : Nat) (l : List Nat) : (List.length (n :: 3 :: []) == 2 &
   cases b <;> kernel_rfl
 example (b : Bool) (n : Nat) : (if b then some (n :: []).length else some 1) = some 1 := by
   cases b <;> kernel_decide
+example (b : Bool) : (b && !b) = false := by
+  first | kernel_decide | (cases b <;> kernel_decide)
